@@ -1021,3 +1021,108 @@ def await_guard(check: Check, repo: Repo, mods: list[Module], rule: str = "AWAIT
                          f"dominated by is_awaitable({name})" if ok else
                          f"`{name}` may be a plain value (its producer returns AwaitableOrValue) but is awaited unconditionally")
     check.floor(rule, 2, "awaits of AwaitableOrValue results")
+
+
+# -- C02 ----------------------------------------------------------------------------------------------
+
+
+def collect_guard(check: Check, repo: Repo, rule: str = "COLLECT-GUARD") -> None:
+    check.rule(
+        rule,
+        "in collect_fields_impl every effect on the collection state - appending field details, creating a "
+        "response key (any subscript on the grouped-field defaultdict), marking a fragment as visited, "
+        "recording a defer usage, recursing - is dominated by the true outcome of should_include_node for "
+        "that selection: a selection excluded by @skip/@include leaves no trace (no key position, no "
+        "visited mark)",
+    )
+    fn = repo.func("execution.collect_fields", "collect_fields_impl")
+    flow = FactFlow(CFG(fn))
+    sites: list[tuple[ast.AST, str]] = []
+    for w in write_sites(fn, include_nested=False):
+        sites.append((w.node, f"{w.kind} {w.chain}.{w.detail}"))
+    for n in walk_body(fn):
+        if isinstance(n, ast.Subscript) and unparse(n.value) == "grouped_field_set" and isinstance(n.ctx, ast.Load):
+            sites.append((n, "grouped_field_set[...] (defaultdict access creates the key)"))
+        if isinstance(n, ast.Call) and call_name(n) == "collect_fields_impl":
+            sites.append((n, "recursive collect_fields_impl(...)"))
+    loop = next((n for n in fn.body if isinstance(n, ast.For)), None)
+    if loop is None:
+        raise AnalysisError("collect_fields_impl: selection loop missing")
+    seen = set()
+    for node, what in sites:
+        if not any(a is loop for a in ancestors(node)) or id(node) in seen:
+            continue
+        seen.add(id(node))
+        facts = flow.facts_at(node)
+        ok = any(f.kind == "cond" and f.pol and f.text.startswith("should_include_node(") for f in facts)
+        check.ob(rule, node, f"{what} :: {node_text(node, 60)}", ok,
+                 "only reached for an included selection" if ok else
+                 "this effect happens before (or regardless of) the @skip/@include decision for the selection")
+    check.floor(rule, 8, "effects in collect_fields_impl")
+
+
+def memo_discovery(check: Check, repo: Repo, mods: list[Module], rule: str = "MEMO-KEY-COVER") -> None:
+    """Generic form of MEMO-KEY-COVER: discover `cache.get(key)` / miss / compute / `cache[key] = v` sites."""
+    check.rule(
+        rule,
+        "for every memo site (a self-attribute mapping read with .get(key) / `key in` and written with "
+        "cache[key] = value in the same method): every parameter of the method that the stored value is "
+        "computed from flows into the key expression; a dropped input makes later calls with a different "
+        "input hit the stale entry",
+    )
+    for mod in mods:
+        for fn in mod.functions():
+            stores = []
+            for s in walk_body(fn):
+                subs = [t for t in s.targets if isinstance(t, ast.Subscript)] if isinstance(s, ast.Assign) else []
+                if subs:
+                    tgt = subs[0]
+                    base = tgt.value
+                    root = base
+                    al = None
+                    if isinstance(base, ast.Name):
+                        for a in walk_body(fn):
+                            if isinstance(a, ast.Assign) and len(a.targets) == 1 and isinstance(a.targets[0], ast.Name) \
+                                    and a.targets[0].id == base.id and isinstance(a.value, ast.Attribute) and unparse(a.value.value) == "self":
+                                al = a.value.attr
+                    elif isinstance(base, ast.Attribute) and unparse(base.value) == "self":
+                        al = base.attr
+                    if al is None:
+                        continue
+                    # there must be a lookup of the same cache
+                    looked = any(isinstance(c, ast.Call) and isinstance(c.func, ast.Attribute) and c.func.attr == "get"
+                                 and unparse(c.func.value) in (unparse(base), f"self.{al}") for c in walk_body(fn))
+                    if looked:
+                        stores.append((s, tgt, al))
+            if not stores:
+                continue
+            params = [a.arg for a in fn.args.args][1:]  # type: ignore[attr-defined]
+            org = Origins(fn)
+            for s, tgt, al in stores:
+                key = tgt.slice
+                key_names = _names_through_locals(key, fn, org, s)
+                val_names = _names_through_locals(s.value, fn, org, s)
+                used = {p for p in params if p in val_names}
+                missing = used - key_names
+                check.ob(rule, s, f"{qualname_of(s)}: self.{al}[{unparse(key)[:40]}]", not missing,
+                         f"key covers {sorted(used)}" if not missing else
+                         f"the stored value depends on parameter(s) {sorted(missing)} that are not part of the key")
+
+
+def _names_through_locals(expr: ast.AST, fn: ast.AST, org: Origins, at: ast.AST, depth: int = 4) -> set[str]:
+    names = {n.id for n in ast.walk(expr) if isinstance(n, ast.Name)}
+    seen = set(names)
+    frontier = set(names)
+    for _ in range(depth):
+        nxt = set()
+        for nm in frontier:
+            for d in org.reaching(nm, at):
+                if d.value is not None and d.kind in ("assign", "walrus", "unpack", "for"):
+                    for x in ast.walk(d.value):
+                        if isinstance(x, ast.Name) and x.id not in seen:
+                            seen.add(x.id)
+                            nxt.add(x.id)
+        frontier = nxt
+        if not frontier:
+            break
+    return seen
